@@ -254,3 +254,8 @@ Fixpoint before_use (l : list item) : list guard :=
 
 Record entry := { e_two_d : bool; e_module : string; e_method : string; e_param : string;
                   e_chain : list item }.
+
+(* per-point arrays (weights, alpha): events of the argument inside the function that validates it *)
+Inductive aevent := AValidate | AUse.
+Record aentry := { a_two_d : bool; a_module : string; a_fn : string; a_arg : string;
+                   a_events : list aevent }.
